@@ -119,25 +119,52 @@ theorem Rel.ok_left {α : Type} {x : α} {an : AN} {b : Except Err (α × Option
   | error e' => simp [Rel] at h
   | ok w => obtain ⟨y, au⟩ := w; simp [Rel] at h; exact ⟨au, by rw [h.1], h.2⟩
 
-/-- the two piece loops agree as long as the spec expansions they call agree -/
+/-- a piece with its literal text replaced by what the markup parser leaves of it -/
+def mapLit (st : Str → Str) (p : Piece) : Piece := { p with lit := st p.lit }
+
+theorem map_mapLit_id (ps : List Piece) : ps.map (mapLit id) = ps := by
+  induction ps with
+  | nil => rfl
+  | cons p ps ih => simp [mapLit, ih]
+
+/-- `build_string` on pieces (so that literals can be rewritten): `buildString env (d+1) t = formatPieces env d (parse t)` -/
+def formatPieces {V} (env : Env V) (d : Nat) (pr : Parsed) (an : AN) : Except Err (Str × AN) :=
+  match renderPieces (buildString env d) env pr.1 an with
+  | .error e => .error e
+  | .ok r => if pr.2.isSome then .error .valueError else .ok r
+
+theorem buildString_succ {V} (env : Env V) (d : Nat) (t : Str) (an : AN) :
+    buildString env (d + 1) t an = formatPieces env d (parse t) an := by
+  unfold buildString formatPieces
+  cases renderPieces (buildString env d) env (parse t).1 an <;> rfl
+
+/-- the two piece loops agree as long as the spec expansions they call agree, the literal feed leaves
+`st lit` of every literal and the value feed is verbatim -/
 theorem pieces_rel {V} (env : Env V) (hA : env.hasArgs = true)
     (selfP : Str → AN → Except Err (Str × AN))
     (selfL : Str → Option Nat → Except Err (Str × Option Nat))
+    (feedL feedV : Str → Except Err Str) (st : Str → Str)
     (ps : List Piece)
+    (hL : ∀ p ∈ ps, feedL p.lit = .ok (st p.lit))
+    (hV : ∀ s, feedV s = .ok s)
     (hs : ∀ p ∈ ps, ∀ f, p.field = some f → ∀ an au, R an au →
         Rel (if needsExpanding f.spec then selfP f.spec an else .ok (f.spec, an)) (selfL f.spec au)) :
-    ∀ an au, R an au → Rel (renderPieces selfP env ps an) (pwfPieces selfL env ps au) := by
+    ∀ an au, R an au →
+      Rel (renderPieces selfP env (ps.map (mapLit st)) an) (pwfPieces selfL feedL feedV env ps au) := by
   induction ps with
   | nil => intro an au r; simp [renderPieces, pwfPieces, Rel, r]
   | cons p ps ih =>
     intro an au r
-    have ih' := ih (fun q hq => hs q (List.mem_cons_of_mem _ hq))
+    have ih' := ih (fun q hq => hL q (List.mem_cons_of_mem _ hq)) (fun q hq => hs q (List.mem_cons_of_mem _ hq))
+    simp only [List.map_cons]
     unfold renderPieces pwfPieces
+    rw [hL p (List.mem_cons_self ..)]
+    simp only [mapLit]
     cases hf : p.field with
     | none =>
       simp only
       have h3 := ih' an au r
-      cases hr : renderPieces selfP env ps an with
+      cases hr : renderPieces selfP env (ps.map (mapLit st)) an with
       | error e => rw [hr] at h3; rw [h3.error_left]; simp [Rel]
       | ok w =>
         obtain ⟨x, an'⟩ := w
@@ -169,9 +196,9 @@ theorem pieces_rel {V} (env : Env V) (hA : env.hasArgs = true)
             cases hfm : env.format v2 spec with
             | error e => simp [Rel]
             | ok sfm =>
-              simp only
+              simp only [hV sfm]
               have h3 := ih' an2 au2 r2
-              cases hr : renderPieces selfP env ps an2 with
+              cases hr : renderPieces selfP env (ps.map (mapLit st)) an2 with
               | error e => rw [hr] at h3; rw [h3.error_left]; simp [Rel]
               | ok w3 =>
                 obtain ⟨x, an3⟩ := w3
@@ -198,28 +225,51 @@ theorem noBrace_of_specOk {spec : Str} (h1 : specOk spec = true) (h2 : needsExpa
     have : spec.contains '}' = true := by simp [hc]
     rw [h1] at this; cases this
 
-/-- loguru's unconditional recursion into a brace-free spec is the identity -/
-theorem pwf_noBrace {V} (env : Env V) (k : Nat) {spec : Str} (h : NoBrace spec) (au : Option Nat) :
-    pwf env (k + 1) spec au = .ok (spec, au) := by
+/-- inside a format spec (`recursive = true`) nothing goes through the markup parser: the regenerated
+`raw=` arguments say so -/
+theorem feed_nested (mk : Str → Except Err Str) (rec : Bool) (s : Str) :
+    feedLit mk (Gen.literalRawWith (Gen.nestedRecursiveWith rec)) s = .ok s ∧
+    feedLit mk (Gen.formattedRawWith rec) s = .ok s := by
+  simp [feedLit, Gen.literalRawWith, Gen.nestedRecursiveWith, Gen.formattedRawWith]
+
+theorem feed_top (mk : Str → Except Err Str) (s : Str) :
+    feedLit mk (Gen.literalRawWith false) s = mk s := by
+  simp [feedLit, Gen.literalRawWith]
+
+/-- loguru's unconditional recursion into a brace-free spec is the identity, WHATEVER the spec
+contains (`<`, `>`, tag-looking text, backslashes) and whatever the markup parser would do with it -/
+theorem pwf_noBrace {V} (mk : Str → Except Err Str) (env : Env V) (k : Nat) (rec : Bool) {spec : Str}
+    (h : NoBrace spec) (au : Option Nat) :
+    pwf mk env (k + 1) (Gen.nestedRecursiveWith rec) spec au = .ok (spec, au) := by
   unfold pwf
   rw [parse_noBrace h]
-  cases spec <;> simp [pwfPieces]
+  cases spec with
+  | nil => simp [pwfPieces]
+  | cons c cs => simp [pwfPieces, (feed_nested mk rec (c :: cs)).1]
 
 theorem mem_fieldsOf {t : Str} {p : Piece} {f : Field} (hp : p ∈ (parse t).1) (hf : p.field = some f) :
     f ∈ fieldsOf t := by
   unfold fieldsOf
   exact List.mem_filterMap.2 ⟨p, hp, hf⟩
 
-/-- one level: if the spec expansions agree on the fields of `t`, so do `build_string` and `_parse_with_formatting` -/
-theorem level_rel {V} (env : Env V) (hA : env.hasArgs = true) (d k : Nat) (t : Str)
+/-- one level: if the spec expansions agree on the fields of `t` and the literal feed leaves `st lit`,
+`build_string` on the rewritten pieces and `_parse_with_formatting` agree -/
+theorem level_rel {V} (mk : Str → Except Err Str) (env : Env V) (hA : env.hasArgs = true) (d k : Nat)
+    (rec : Bool) (st : Str → Str) (t : Str)
+    (hL : ∀ p ∈ (parse t).1, feedLit mk (Gen.literalRawWith rec) p.lit = .ok (st p.lit))
     (hs : ∀ f ∈ fieldsOf t, ∀ an au, R an au →
-        Rel (if needsExpanding f.spec then buildString env d f.spec an else .ok (f.spec, an)) (pwf env k f.spec au)) :
-    ∀ an au, R an au → Rel (buildString env (d + 1) t an) (pwf env (k + 1) t au) := by
+        Rel (if needsExpanding f.spec then buildString env d f.spec an else .ok (f.spec, an))
+          (pwf mk env k (Gen.nestedRecursiveWith rec) f.spec au)) :
+    ∀ an au, R an au →
+      Rel (formatPieces env d ((parse t).1.map (mapLit st), (parse t).2) an) (pwf mk env (k + 1) rec t au) := by
   intro an au r
-  have h := pieces_rel env hA (buildString env d) (pwf env k) (parse t).1
+  have h := pieces_rel env hA (buildString env d) (pwf mk env k (Gen.nestedRecursiveWith rec))
+    (feedLit mk (Gen.literalRawWith rec)) (feedLit mk (Gen.formattedRawWith rec)) st (parse t).1 hL
+    (fun s => (feed_nested mk rec s).2)
     (fun p hp f hf => hs f (mem_fieldsOf hp hf)) an au r
-  unfold buildString pwf
-  cases hr : renderPieces (buildString env d) env (parse t).1 an with
+  unfold formatPieces pwf
+  simp only
+  cases hr : renderPieces (buildString env d) env ((parse t).1.map (mapLit st)) an with
   | error e => rw [hr] at h; rw [h.error_left]; simp [Rel]
   | ok w =>
     obtain ⟨x, an'⟩ := w
@@ -228,25 +278,32 @@ theorem level_rel {V} (env : Env V) (hA : env.hasArgs = true) (d k : Nat) (t : S
     rw [e]
     by_cases hp : (parse t).2.isSome = true <;> simp [hp, Rel, r']
 
-/-- the coloured path computes what `str.format` computes on templates without a third nesting level -/
-theorem colored_rel {V} (env : Env V) (hA : env.hasArgs = true) (t : Str)
+/-- the coloured path computes what `str.format` computes on the template with its literal texts
+replaced by what the markup parser leaves of them (`st`), for templates without a third nesting level;
+the markup oracle `mk` is only constrained on the TOP-LEVEL literal texts – format specs reach
+`__format__` verbatim whatever they contain -/
+theorem colored_rel {V} (mk : Str → Except Err Str) (env : Env V) (hA : env.hasArgs = true)
+    (st : Str → Str) (t : Str)
+    (hm : ∀ p ∈ (parse t).1, mk p.lit = .ok (st p.lit))
     (h1 : specsOk t = true) (h2 : shallow t = true) :
-    Rel (buildString env 2 t .init) (pwf env 3 t (some 0)) := by
+    Rel (formatPieces env 1 ((parse t).1.map (mapLit st), (parse t).2) .init) (pwf mk env 3 false t (some 0)) := by
   simp only [specsOk, List.all_eq_true, Bool.and_eq_true] at h1
   simp only [shallow, List.all_eq_true, Bool.not_eq_true'] at h2
-  refine level_rel env hA 1 2 t ?_ .init (some 0) R.init
+  refine level_rel mk env hA 1 2 false st t (fun p hp => by rw [feed_top]; exact hm p hp) ?_ .init (some 0) R.init
   intro f hf an au r
   by_cases hn : needsExpanding f.spec = true
   · simp only [hn, if_true]
-    refine level_rel env hA 0 1 f.spec ?_ an au r
-    intro g hg an' au' r'
-    have hne := h2 f hf g hg
-    have nb := noBrace_of_specOk ((h1 f hf).2 g hg) hne
-    rw [pwf_noBrace env 0 nb, hne]
-    simp [Rel, r']
+    have hl := level_rel mk env hA 0 1 (Gen.nestedRecursiveWith false) id f.spec
+      (fun p _ => (feed_nested mk false p.lit).1) ?_ an au r
+    · rw [map_mapLit_id, ← buildString_succ] at hl; exact hl
+    · intro g hg an' au' r'
+      have hne := h2 f hf g hg
+      have nb := noBrace_of_specOk ((h1 f hf).2 g hg) hne
+      rw [pwf_noBrace mk env 0 _ nb, hne]
+      simp [Rel, r']
   · have hn' : needsExpanding f.spec = false := by simpa using hn
     have nb := noBrace_of_specOk (h1 f hf).1 hn'
-    rw [pwf_noBrace env 1 nb, hn']
+    rw [pwf_noBrace mk env 1 false nb, hn']
     simp [Rel, r]
 
 end Format
